@@ -186,6 +186,38 @@ def run(v, tier, seed, g):
                     v.violation(f"c10-tol:{x['id']}", f"table_rtol=table_atol={tol} changes the tensor by {k['error']:.3g} (relative), more than the tolerances allow (case {x['id']})",
                                 {"case": x["id"], "code": x["code"], "options": {"table_rtol": tol, "table_atol": tol}, "relative_error": k["error"]})
     stats["tolerance_coarse"] = loose
+    # 4b. the clamping function itself on generated tables with UNEQUAL tolerances (rtol >> atol and atol >> rtol):
+    #     an entry may only move to a target n, and only if |t - n| <= atol + rtol*|n| (what Clamp.v proves of the model);
+    #     this is also the search for a failing input when the shape pinned by tr_c10 no longer matches
+    import numpy as np
+    from ffcx.ir.elementtables import clamp_table_small_numbers
+    crng = np.random.default_rng(seed)
+    nbad = ncl = 0
+    targets = (-1.0, 0.0, 1.0)
+    for trial in range(60 if tier == "quick" else 600):
+        rt, at = [(0.05, 0.0), (0.0, 0.01), (0.2, 1e-12), (1e-9, 0.125), (1e-6, 1e-9), (0.01, 0.001)][trial % 6]
+        base = crng.choice([-1.0, 0.0, 1.0, 0.3, -0.7], size=(2, 3, 4))
+        t = base + crng.choice([0.0, 1e-12, 1e-7, 1e-3, 0.008, 0.03, 0.1, 0.18], size=base.shape) * crng.choice([-1.0, 1.0], size=base.shape)
+        try:
+            out = np.asarray(clamp_table_small_numbers(t.copy(), rtol=rt, atol=at), dtype=float)
+        except BaseException as e:  # noqa: BLE001
+            v.oblige(False)
+            v.violation("c10-clamp-call", f"clamp_table_small_numbers raised {type(e).__name__}: {e}", {"rtol": rt, "atol": at}, no_input=True)
+            break
+        ncl += 1
+        moved = out != t
+        okm = np.ones(t.shape, dtype=bool)
+        for idx in zip(*np.nonzero(moved)):
+            n = out[idx]
+            okm[idx] = (n in targets) and abs(t[idx] - n) <= at + rt * abs(n) + 1e-15
+        good = bool(okm.all())
+        v.oblige(good)
+        if not good and nbad < 2:
+            nbad += 1
+            idx = tuple(int(i) for i in np.argwhere(~okm)[0])
+            v.violation("c10-clamp", f"clamp_table_small_numbers(table, rtol={rt}, atol={at}) moves the entry {t[idx]!r} to {out[idx]!r}: further than atol + rtol*|target| allows",
+                        {"rtol": rt, "atol": at, "entry": float(t[idx]), "result": float(out[idx]), "table": t.tolist()})
+    stats["clamp_function"] = {"tables": ncl, "violations": nbad}
     if not g["ok"] and not v.violations:
         v.violation("gate", "proof obligations no longer check: " + "; ".join(g["broken"]), {"broken": g["broken"]}, no_input=True)
     tot = sum(s.get("agree", 0) + s.get("mismatch", 0) + s.get("bad", 0) for s in stats.values())
